@@ -16,7 +16,7 @@ SHARD = 150
 
 KINDS = ["copy-root", "copy-root", "fromFiber", "fromUncompressed", "fromRandom", "empty", "yaml", "deepcopy-mutated", "makePopulated",
          "splitUniform", "splitNonUniform", "splitEqual", "splitUnEqual", "swizzle", "swap", "flatten",
-         "flatten-unflatten", "merge", "updateCoords", "updatePayloads", "copy-root"]
+         "flatten-unflatten", "merge", "updateCoords", "updatePayloads", "copy-root", "append-read-default"]
 
 
 def gen_case(rng):
@@ -147,6 +147,17 @@ def build(case):
         return T, base
     if kind == "deepcopy-mutated":
         return copy.deepcopy(base), base
+    if kind == "append-read-default":
+        # the default fiber getPayload() hands out for an absent interior coordinate names the next rank as
+        # its owner without being listed there; storing it (append) must list it (S49)
+        if n >= 2:
+            root = base.getRoot()
+            c = (max(root.coords) + 1) if root.coords else 0
+            f = root.getPayload(c)
+            root.append(c, f)
+            if n >= 3:
+                f.getPayloadRef(case["arg"] % 3)
+        return base, None
     if kind == "copy-root":
         # the root already belongs to `base`: setRoot must copy it and leave `base` intact
         return Tensor.fromFiber(rank_ids=ids, fiber=base.getRoot(), shape=case["shapes"]), base
